@@ -184,6 +184,13 @@ enum E { Unit, New(i32), Tup(i32, String), Str { a: bool }, Opt(Option<i32>), Ni
 #[derive(Debug, PartialEq, Deserialize, DSerialize, Clone)]
 struct Outer { p: Point, e: E, o: Option<Vec<i32>>, #[serde(default)] d: u8 }
 
+#[derive(Debug, PartialEq, Eq, PartialOrd, Ord, Deserialize, DSerialize, Clone)]
+struct UserId(String);
+#[derive(Debug, PartialEq, Eq, PartialOrd, Ord, Deserialize, DSerialize, Clone)]
+enum Color { Red, Blue }
+#[derive(Debug, PartialEq, Deserialize, DSerialize, Clone)]
+struct Flat { id: i32, #[serde(flatten)] extra: BTreeMap<String, i32> }
+
 fn dec<T>(var: &Variable, val: &Value) -> (String, String, bool)
 where
     T: serde::de::DeserializeOwned + std::fmt::Debug + Serialize,
@@ -203,8 +210,10 @@ where
     (sa, sb, rt)
 }
 
-pub const TYPES: [&str; 24] = ["bool", "i8", "u8", "i32", "i64", "u64", "f64", "char", "String", "Option<i32>", "()", "Unit", "Newtype",
-    "Vec<i32>", "Vec<u8>", "(i32,String)", "Pair", "Point", "E", "BTreeMap<String,i32>", "Vec<Option<bool>>", "Outer", "Option<E>", "Vec<Point>"];
+pub const TYPES: [&str; 33] = ["bool", "i8", "u8", "i32", "i64", "u64", "f64", "char", "String", "Option<i32>", "()", "Unit", "Newtype",
+    "Vec<i32>", "Vec<u8>", "(i32,String)", "Pair", "Point", "E", "BTreeMap<String,i32>", "Vec<Option<bool>>", "Outer", "Option<E>", "Vec<Point>",
+    "BTreeMap<UserId,Vec<u32>>", "BTreeMap<char,i32>", "BTreeMap<Color,i32>", "Flat", "Vec<UserId>",
+    "[i32;2]", "Box<Point>", "(UserId,i32)", "BTreeMap<String,Option<Point>>"];
 
 fn dec_by_name(ty: &str, var: &Variable, val: &Value) -> (String, String, bool) {
     match ty {
@@ -232,6 +241,17 @@ fn dec_by_name(ty: &str, var: &Variable, val: &Value) -> (String, String, bool) 
         "Outer" => dec::<Outer>(var, val),
         "Option<E>" => dec::<Option<E>>(var, val),
         "Vec<Point>" => dec::<Vec<Point>>(var, val),
+        "BTreeMap<UserId,Vec<u32>>" => dec::<BTreeMap<UserId, Vec<u32>>>(var, val),
+        "BTreeMap<char,i32>" => dec::<BTreeMap<char, i32>>(var, val),
+        "BTreeMap<Color,i32>" => dec::<BTreeMap<Color, i32>>(var, val),
+        // maps whose Rust keys are integers are outside C14 ("values that serde can serialise with string-keyed maps"): serde_json parses
+        // such keys back out of the key strings, the library does not (DESIGN.md 11.4)
+        "Flat" => dec::<Flat>(var, val),
+        "Vec<UserId>" => dec::<Vec<UserId>>(var, val),
+        "[i32;2]" => dec::<[i32; 2]>(var, val),
+        "Box<Point>" => dec::<Box<Point>>(var, val),
+        "(UserId,i32)" => dec::<(UserId, i32)>(var, val),
+        "BTreeMap<String,Option<Point>>" => dec::<BTreeMap<String, Option<Point>>>(var, val),
         _ => ("?".into(), "?".into(), false),
     }
 }
